@@ -8,6 +8,9 @@ Definition FC : nat := N.to_nat C15_BUFWRITER_CAP.
 
 Definition fi_step (wenv : nat -> wresp) (senv : nat -> bool) := fstep WB FC wal_crc wenv senv.
 Definition fi_run (wenv : nat -> wresp) (senv : nat -> bool) := frun WB FC wal_crc wenv senv.
+(* the repaired Wal *)
+Definition fi_xstep (wenv : nat -> wresp) (senv : nat -> bool) := xstep WB FC wal_crc wenv senv.
+Definition fi_xrun (wenv : nat -> wresp) (senv : nat -> bool) := xrun WB FC wal_crc wenv senv.
 
 (* side conditions tying the generated parameters to the model *)
 Definition fail_params_ok : bool :=
